@@ -4,6 +4,20 @@ import json, os
 HERE = os.path.dirname(os.path.dirname(os.path.abspath(__file__)))
 
 CLAIMS = {
+    "C19": ("loop-completeness path rules on HyperTuner.execute + polarity (RAW/RANK) typing of the pandas ranking pipeline with the direction flag partially evaluated under MIN/MAX",
+            "Static: the grid loop covers list(ParameterGrid(param_grid)) without exits, sets the point's parameters before its "
+            "n_trials trials, records the same point and one cost per trial column; every rank() of the RAW mean column carries the "
+            "direction flag and no rank() of RANK data does; the winner is the min of the final RANK whose primary key is the mean's "
+            "rank; best_parameters/best_score come from that row; resolve() applies them before optimizing.",
+            "ParameterGrid len/iter/getitem laws are not decided (arithmetic); pandas rank/mean and executor.map semantics trusted.",
+            "DESIGN.md 4/C19"),
+    "C20": ("shape typing of the modes table per guard branch + path rules on execute/__parallelize__/__run__ + loop-carried definition rule on export_results",
+            "Static: each return branch of __check_input__ must evaluate to LIST[n](row of m) with rows = algorithms (a generator handed "
+            "to deepcopy or a flat tuple is rejected), modes are validated at construction, execute() is two unconditional nested loops "
+            "calling __parallelize__ with its own optimizer/task, the mode of __get_mode__(i, j) and n_trials trials, one table per "
+            "algorithm; __run__ forwards the mode; the export directory has no loop-carried definition.",
+            "executor.map / pandas DataFrame construction semantics trusted.",
+            "DESIGN.md 4/C20"),
     "C13": ("primitive-level reading of the seven Variable kinds (randomize/correct/decode/get_bounds/size/children/validators) against domain laws; idempotence by primitive composition; validator formulas via FRM",
             "Static: every law is reduced to obligations on primitives read from models.py - sampling primitive and its range "
             "arguments, clamp arguments in (low, high) order from the variable's own fields, discrete index range 0..len-1 and "
